@@ -148,6 +148,56 @@ def _assertions(o):
     return out
 
 
+def _ground_int_terms(asserts, limit=10):
+    out = {}
+    seen = set()
+    stack = list(asserts)
+    while stack:
+        x = stack.pop()
+        i = x.get_id()
+        if i in seen:
+            continue
+        seen.add(i)
+        if z3.is_quantifier(x):
+            continue
+        if z3.is_app(x):
+            k = x.decl().kind()
+            uf = k == z3.Z3_OP_UNINTERPRETED and x.num_args() > 0
+            sel = k in (z3.Z3_OP_SELECT, z3.Z3_OP_STORE)
+            for j, c in enumerate(x.children()):
+                if (uf or (sel and j >= 1)) and z3.is_int(c) and not z3.is_int_value(c):
+                    out[c.get_id()] = c
+                stack.append(c)
+    terms = list(out.values())
+    terms.sort(key=lambda t: len(str(t)) if len(terms) < 50 else 0)
+    return terms[:limit]
+
+
+def _instantiated_sat(asserts, timeout_ms):
+    """Search a counter-model with every top-level universally quantified hypothesis over one Int variable replaced
+    by its instances at the ground Int index terms of the obligation (other quantified hypotheses dropped)."""
+    try:
+        ground = [a for a in asserts if not _has_quant(a)]
+        terms = _ground_int_terms(ground)
+        extra = []
+        for a in asserts:
+            if z3.is_quantifier(a) and a.is_forall() and a.num_vars() == 1 and a.var_sort(0) == z3.IntSort():
+                for t in terms + [z3.IntVal(0)]:
+                    inst = z3.substitute_vars(a.body(), t)
+                    if not _has_quant(inst):
+                        extra.append(inst)
+        s = z3.Solver()
+        s.set('timeout', timeout_ms)
+        s.add(*ground)
+        s.add(*extra)
+        r = s.check()
+        if r == z3.sat:
+            return 'sat', _model_dict(s.model())
+    except z3.Z3Exception:
+        pass
+    return 'unknown', None
+
+
 def solve_forked(args):
     """Worker entry point for fork-inherited obligations: no serialisation unless a CLI fall-back is needed."""
     idx, timeout_ms, use_fallback = args
@@ -176,6 +226,11 @@ def solve_forked(args):
             return str(idx), 'unsat', 'z3-5.1.0(api)', ms, None, ''
         if r == z3.sat:
             return str(idx), 'sat', 'z3-5.1.0(api)', ms, _model_dict(s.model()), ''
+        if not o.expect_sat:
+            r2, model2 = _instantiated_sat(asserts, min(timeout_ms, 20000))
+            if r2 == 'sat':
+                return (str(idx), 'sat', 'z3-5.1.0(api)', (time.time() - t0) * 1000, model2,
+                        'counter-model of the obligation with quantified hypotheses instantiated at its ground index terms')
         if not use_fallback:
             return str(idx), 'unknown', 'z3-5.1.0(api)', ms, None, s.reason_unknown()
         name, r2, backend, ms2, model, reason = solve_text((str(idx), o.to_smt2(), timeout_ms, True, True))
